@@ -2,7 +2,7 @@
    encoding of the reply the specification expects; the reference reader decodes
    it back; UDP and TCP (record mark) handlers; the payload-level monitor holds
    on the model's output; statements at the level of proto::repl. *)
-From MS Require Import Proofs.Tactics Rpc Proto Spec.RefXdr Spec.C16 Spec.AppView
+From MS Require Import Proofs.Tactics Proofs.Pending Rpc Proto Spec.RefXdr Spec.C16 Spec.AppView
   Proofs.C16Xdr Proofs.C16Text Proofs.C16Parse.
 
 (* ---- an XDR encoder for replies (proof device: the inverse of the reference reader) ---- *)
@@ -453,7 +453,8 @@ Lemma dispatch_rpc_tcp (E : env) (clk : clock) (ci : cinfo) (ip : ipaddr) (port 
   (t_pstate tc = None /\ r0 = rpc_new R_FRAG \/ t_pstate tc = Some (PRpc r0)) ->
   dispatch E clk ci PROTO_RPC_TCP (Some tc) p =
     Ok (ci, Some {| t_smack := t_smack tc; t_proto := t_proto tc;
-                    t_pstate := Some (PRpc (fst (rpc_repl_tcp r0 ip port p))) |},
+                    t_pstate := Some (PRpc (fst (rpc_repl_tcp r0 ip port p)));
+                    t_pending := t_pending tc |},
         snd (rpc_repl_tcp r0 ip port p)).
 Proof.
   intros Hip Hport Hps. unfold dispatch.
@@ -480,12 +481,12 @@ Theorem proto_tcp_first_rpc (E : env) (clk : clock) (ci : cinfo) (ip : ipaddr) (
   exists st,
     proto_repl_tcp E clk ci tcb_new p =
       Ok (ci, {| t_smack := st; t_proto := PROTO_RPC_TCP;
-                 t_pstate := Some (PRpc (fst (rpc_repl_tcp (rpc_new R_FRAG) ip port p))) |},
+                 t_pstate := Some (PRpc (fst (rpc_repl_tcp (rpc_new R_FRAG) ip port p)));
+                 t_pending := [] |},
           snd (rpc_repl_tcp (rpc_new R_FRAG) ip port p)).
 Proof.
-  intros Hip Hport Hid. unfold proto_repl_tcp. unfold tcp_first_id in Hid.
-  change (t_proto tcb_new =? PROTO_NONE) with true. cbv iota. change (t_smack tcb_new) with BASE_STATE.
-  destruct (search_next (e_proto_tbl E) BASE_STATE p) as [[id st] n]. subst id.
+  intros Hip Hport Hid. rewrite Pending.proto_repl_tcp_first. unfold tcp_first_id in Hid.
+  destruct (search_next (e_proto_tbl E) BASE_STATE p) as [[id st] n]. subst id. cbv zeta.
   cbn [id_of t_proto]. exists st.
   rewrite (dispatch_rpc_tcp E clk ci ip port _ (rpc_new R_FRAG) p Hip Hport)
     by (left; split; reflexivity).
